@@ -45,6 +45,15 @@ CLAIMS = {
         design="6 C14",
         technique="explicit TLA+ spec + TLC model checking (exhaustive over the configuration product); transitions replayed on the code and judged by TLC",
     ),
+    "C20": dict(
+        spec="FsPatch.tla / FsPatchGen.tla / FsPatchJudge.tla",
+        text="TLC model-checks the patch() state machine (Restored for every way of leaving incl. failure during setup, nesting "
+        "refused without damage, re-entry, connections closed) and enumerates the argv grammar <options>* <target> <args>*; "
+        "every transition and bounded operation sequence is replayed in a forked child process against the real patch() and "
+        "cli.main() (targets observed by identity, connections probed, sys.argv dumped by a stub target) and judged by TLC.",
+        design="6 C20",
+        technique="explicit TLA+ spec + TLC model checking; TLC-generated behaviours replayed on the code in child processes and judged by TLC",
+    ),
 }
 
 
